@@ -50,6 +50,12 @@ where
         let bytes = application_message.into_bytes();
         let mut rumor: UnsignedEvent = UnsignedEvent::from_json(bytes)?;
 
+        // Never trust an id carried inside the decrypted payload: it is the storage key, so it
+        // must be the NIP-01 hash of the rumor's own fields (recomputed by `id()` below).
+        // Otherwise a member could overwrite another member's stored message by sending a
+        // rumor with that message's id.
+        rumor.id = None;
+
         self.verify_rumor_author(&rumor.pubkey, sender_credential)?;
 
         let rumor_id: EventId = rumor.id();
